@@ -274,11 +274,17 @@ func checkC16(e *Env) {
 		}
 		if sg := e.fn("signedexchange.(*Signer).signatureHeaderValue"); sg != nil {
 			var stored []string
-			for _, b := range sg.Blocks {
-				for _, in := range b.Instrs {
-					if mu, ok := in.(*ssa.MapUpdate); ok {
-						if mi, ok := mu.Value.(*ssa.MakeInterface); ok {
-							stored = append(stored, shortT(mi.X.Type()))
+			fs := []*ssa.Function{sg}
+			for _, c := range unknownHelperCalls(e, sg) {
+				fs = append(fs, c.Call.StaticCallee())
+			}
+			for _, f := range fs {
+				for _, b := range f.Blocks {
+					for _, in := range b.Instrs {
+						if mu, ok := in.(*ssa.MapUpdate); ok {
+							if mi, ok := mu.Value.(*ssa.MakeInterface); ok {
+								stored = append(stored, shortT(mi.X.Type()))
+							}
 						}
 					}
 				}
